@@ -20,7 +20,19 @@ import (
 	"verif/harness/vt"
 )
 
-func TestMain(m *testing.M) { vt.Main(m) }
+func TestMain(m *testing.M) {
+	if err := setupHelpers(); err != nil {
+		fmt.Fprintln(os.Stderr, "cannot set up helper programs:", err)
+		os.Exit(2)
+	}
+	code := m.Run()
+	vt.WriteStats()
+	os.RemoveAll(helperDir)
+	if tmpDir != "" {
+		os.RemoveAll(tmpDir)
+	}
+	os.Exit(code)
+}
 
 type Auth struct {
 	Username      string `json:"username,omitempty"`
@@ -424,8 +436,6 @@ func TestPropLookup(t *testing.T) {
 
 func TestReplay(t *testing.T) {
 	vt.Register(prop)
+	vt.Register(propExec)
 	vt.Replay(t)
-	if tmpDir != "" {
-		os.RemoveAll(tmpDir)
-	}
 }
